@@ -426,12 +426,22 @@ impl<'g, T> CallDriver<'g, T> {
             return;
         }
         if self.need_poll {
-            if self.batch {
-                // act before polling although a wake-up is outstanding
-                let held = self.sh.borrow().held();
-                if !held.is_empty() && self.polls > 0 && tape.coin(1, 4) {
-                    let k = held[tape.choose(held.len())];
-                    self.release(k);
+            if self.polls > 0 {
+                // the previous poll returned Pending with a wake-up outstanding: act before re-polling
+                if self.batch {
+                    let held = self.sh.borrow().held();
+                    if !held.is_empty() && tape.coin(1, 4) {
+                        let k = held[tape.choose(held.len())];
+                        self.release(k);
+                    }
+                }
+                let can_signal = {
+                    let st = self.sh.borrow();
+                    st.signal_plan == SignalPlan::Tape && !st.signal_sent && st.sig_tx.is_some()
+                };
+                if can_signal && tape.coin(1, 8) {
+                    // a signal that arrives between two polls while the call is NOT quiescent
+                    self.sh.borrow_mut().send_signal();
                 }
             }
             self.poll_once(false);
@@ -445,7 +455,6 @@ impl<'g, T> CallDriver<'g, T> {
         };
         let can_spur = self.spurious_left > 0;
         let can_drop = self.allow_drop;
-        let nopt = held.len() + can_signal as usize + can_spur as usize + can_drop as usize;
         if held.is_empty() && !can_signal && !can_spur {
             // nothing can ever wake this future again
             if can_drop {
@@ -454,47 +463,78 @@ impl<'g, T> CallDriver<'g, T> {
             self.finish(Term::Deadlock);
             return;
         }
-        let mut pick = tape.choose(nopt);
-        if pick < held.len() {
-            let k = held[pick];
-            let f = self.sh.borrow().insts[k].f;
-            if !self.release(k) {
-                self.finish(Term::LostWake(f));
-                return;
-            }
-            if self.batch {
-                loop {
-                    let held = self.sh.borrow().held();
-                    if held.is_empty() || !tape.coin(1, 3) {
-                        break;
-                    }
-                    let k = held[tape.choose(held.len())];
-                    self.release(k);
-                }
-            }
-            self.need_poll = true;
-            return;
+        // two-level choice: first the kind of action, then its operand (keeps the choice unbiased
+        // on wide graphs where hundreds of futures are held)
+        #[derive(Clone, Copy, PartialEq)]
+        enum Act {
+            Release,
+            ReleaseAll,
+            Signal,
+            Spur,
+            Drop,
         }
-        pick -= held.len();
+        let mut acts: Vec<Act> = Vec::with_capacity(5);
+        if !held.is_empty() {
+            acts.push(Act::Release);
+        }
+        if self.batch && held.len() >= 2 {
+            acts.push(Act::ReleaseAll);
+        }
         if can_signal {
-            if pick == 0 {
-                self.sh.borrow_mut().send_signal();
-                // a signal wakes nobody: stay quiescent
-                return;
-            }
-            pick -= 1;
+            acts.push(Act::Signal);
         }
         if can_spur {
-            if pick == 0 {
+            acts.push(Act::Spur);
+        }
+        if can_drop {
+            acts.push(Act::Drop);
+        }
+        match acts[tape.choose(acts.len())] {
+            Act::Release => {
+                let k = held[tape.choose(held.len())];
+                let f = self.sh.borrow().insts[k].f;
+                if !self.release(k) {
+                    self.finish(Term::LostWake(f));
+                    return;
+                }
+                if self.batch {
+                    loop {
+                        let held = self.sh.borrow().held();
+                        if held.is_empty() || !tape.coin(1, 3) {
+                            break;
+                        }
+                        let k = held[tape.choose(held.len())];
+                        self.release(k);
+                    }
+                }
+                self.need_poll = true;
+            }
+            Act::ReleaseAll => {
+                // every held future completes between two polls
+                let first = held[0];
+                let f = self.sh.borrow().insts[first].f;
+                if !self.release(first) {
+                    self.finish(Term::LostWake(f));
+                    return;
+                }
+                for &k in &held[1..] {
+                    self.release(k);
+                }
+                self.need_poll = true;
+            }
+            Act::Signal => {
+                // a signal wakes nobody: stay quiescent
+                self.sh.borrow_mut().send_signal();
+            }
+            Act::Spur => {
                 self.spurious_left -= 1;
                 self.poll_once(true);
-                return;
             }
-            pick -= 1;
+            Act::Drop => {
+                self.sh.borrow_mut().log.push(Ev::RootDrop);
+                self.finish(Term::Dropped);
+            }
         }
-        debug_assert!(can_drop && pick == 0);
-        self.sh.borrow_mut().log.push(Ev::RootDrop);
-        self.finish(Term::Dropped);
     }
 
     pub fn run(&mut self, tape: &mut Tape) {
@@ -534,6 +574,7 @@ pub struct StreamDriver<'g> {
     spurious_left: u8,
     batch: bool,
     allow_drop: bool,
+    greedy: bool,
     pub term: Option<Term>,
     pub polls: usize,
     pub idle_points: usize,
@@ -567,6 +608,7 @@ impl<'g> StreamDriver<'g> {
             spurious_left: spec.spurious,
             batch: spec.batch,
             allow_drop: spec.allow_drop,
+            greedy: spec.greedy,
             term: None,
             polls: 0,
             idle_points: 0,
@@ -681,47 +723,70 @@ impl<'g> StreamDriver<'g> {
             }
             return;
         }
-        // When only signal remains possible (pending, nothing held), the consumer is stuck
-        // unless a signal changes anything; a signal wakes nobody, so try it and come back.
-        let mut pick = tape.choose(nopt);
-        if can_poll {
-            if pick == 0 {
-                self.poll_once(false);
-                return;
-            }
-            pick -= 1;
+        #[derive(Clone, Copy, PartialEq)]
+        enum Act {
+            Poll,
+            DropOne,
+            DropAll,
+            Spur,
+            DropStream,
+            Signal,
         }
-        if pick < nheld {
-            self.drop_ref(pick);
-            if self.batch && self.term.is_none() {
-                while !self.held.is_empty() && tape.coin(1, 3) {
-                    let i = tape.choose(self.held.len());
-                    self.drop_ref(i);
-                    if self.term.is_some() {
-                        break;
+        if self.greedy && can_poll {
+            // take everything on offer first
+            self.poll_once(false);
+            return;
+        }
+        let mut acts: Vec<Act> = Vec::with_capacity(6);
+        if can_poll {
+            acts.push(Act::Poll);
+        }
+        if nheld > 0 {
+            acts.push(Act::DropOne);
+        }
+        if self.batch && nheld >= 2 {
+            acts.push(Act::DropAll);
+        }
+        if can_spur {
+            acts.push(Act::Spur);
+        }
+        if can_drop {
+            acts.push(Act::DropStream);
+        }
+        if can_signal {
+            acts.push(Act::Signal);
+        }
+        let _ = nopt;
+        match acts[tape.choose(acts.len())] {
+            Act::Poll => self.poll_once(false),
+            Act::DropOne => {
+                let i = tape.choose(nheld);
+                self.drop_ref(i);
+                if self.batch && self.term.is_none() {
+                    while !self.held.is_empty() && tape.coin(1, 3) {
+                        let i = tape.choose(self.held.len());
+                        self.drop_ref(i);
+                        if self.term.is_some() {
+                            break;
+                        }
                     }
                 }
             }
-            return;
-        }
-        pick -= nheld;
-        if can_spur {
-            if pick == 0 {
+            Act::DropAll => {
+                // bulk drop: every outstanding FnRef goes between two polls, in a tape-chosen direction
+                let rev = tape.coin(1, 2);
+                while !self.held.is_empty() && self.term.is_none() {
+                    let i = if rev { self.held.len() - 1 } else { 0 };
+                    self.drop_ref(i);
+                }
+            }
+            Act::Spur => {
                 self.spurious_left -= 1;
                 self.poll_once(true);
-                return;
             }
-            pick -= 1;
+            Act::DropStream => self.drop_stream(),
+            Act::Signal => self.sh.borrow_mut().send_signal(),
         }
-        if can_drop {
-            if pick == 0 {
-                self.drop_stream();
-                return;
-            }
-            pick -= 1;
-        }
-        debug_assert!(can_signal && pick == 0);
-        self.sh.borrow_mut().send_signal();
     }
 
     pub fn run(&mut self, tape: &mut Tape) {
